@@ -240,8 +240,9 @@ class BuildDirector(SectionLineParser):
         # make sure that volumes are indexed by the hash
         for resname, graph_hash in self.resnames_to_hash.items():
             if resname in self.topology.volumes:
+                # the entry by name stays: another residue of that name
+                # that has a different template still needs it
                 self.topology.volumes[graph_hash] = self.topology.volumes[resname]
-                del self.topology.volumes[resname]
 
     @staticmethod
     def _tag_nodes(molecule, keyword, option, molname=""):
